@@ -1,5 +1,5 @@
 """C03 — encoding conforms to the Standard (structural and class-level clauses)."""
-import r_state, r_encclass
+import r_state, r_encclass, r_lookahead, r_surr
 
 MANIFEST = {
     'category': 'other',
@@ -26,4 +26,8 @@ def run(rep, facts, tier):
         r_state.char_classes(rep, f, c, 'C03-D2')
         r_encclass.payloads(rep, f, c, 'C03-D3')
         r_encclass.run(rep, f, c, 'C03-D5')
+        n = r_lookahead.run(rep, f, c, 'R-LOOKAHEAD', lambda nm: nm.startswith(('handles::Utf16Source', 'single_byte::SingleByteEncoder')))
+        rep.floor('R-LOOKAHEAD', 'surrogate look-ahead sites', n, 4, c)
+        n = r_surr.run(rep, f, c, 'R-SURR', lambda nm: 'Encoder::' in nm or nm.startswith(('handles::Utf16Source', 'handles::Utf8Source')))
+        rep.floor('R-SURR', 'surrogate tests on the encoder side', n, 10, c)
     return ('other', MANIFEST['text'], [])
